@@ -34,7 +34,7 @@ class Driver:
                 if "\t" in f or "\n" in f:
                     raise DriverError("unescaped separator in request %r" % (r,))
         n = len(requests)
-        nshards = min(16, os.cpu_count() or 1, n // 400) if shard else 1
+        nshards = min(16, os.cpu_count() or 1, n // 8) if shard and n >= 32 else 1
         if nshards <= 1:
             out = self._ask_one(requests)
         else:
